@@ -68,7 +68,7 @@ def gen_budget(rng, profile='migrate', year=2025):
             c2['settings'] = st.source_settings(lay, c2['name'], c2['file'])
     fields = sorted({e for s in b['sources'] for e in s['layout']['extras'] if s['layout']['mode'] == 1})
     supp_name = None
-    if profile == 'full' and rng.random() < 0.3:
+    if profile == 'full' and rng.random() < 0.4:
         lay = st.gen_layout(rng, simple=True)
         lay['sign'] = ''
         lay['negate_setting'] = False
@@ -83,7 +83,8 @@ def gen_budget(rng, profile='migrate', year=2025):
         file = 'data/orders.csv'
         b['sources'].append({'name': 'Orders', 'file': file, 'layout': lay, 'rows': rows, 'supplemental': True,
                              'settings': st.source_settings(lay, 'Orders', file, supplemental=True)})
-        supp_name = 'orders'
+        # identifiers are case-insensitive in rule expressions: the rule may spell the source any way
+        supp_name = rng.choice(['orders', 'orders', 'Orders', 'ORDERS'])
 
     # rules
     r = rng.random()
@@ -112,6 +113,11 @@ def gen_budget(rng, profile='migrate', year=2025):
             if used and rng.random() < 0.5 and rule['match'].startswith('contains("'):
                 w = rng.choice(used)
                 rule['match'] = 'contains("%s")' % w + rule['match'][rule['match'].index('")') + 2:]
+        if supp_name and rng.random() < 0.8:
+            # a rule whose verdict depends on the supplemental rows (placed first so that it decides in first_match mode)
+            ident = rng.choice([supp_name, supp_name.lower(), supp_name.upper(), supp_name.title()])
+            m['rules'].insert(0, {'name': 'Ordered', 'match': 'any(r.amount == txn.amount for r in %s)' % ident, 'category': 'Ordered',
+                                  'subcategory': 'Matched', 'merchant': '', 'tags': ['ordered'], 'priority': 95, 'lets': [], 'fields': []})
         b['rules_model'] = m
         if profile == 'full' and rng.random() < 0.4:
             b['rule_mode'] = 'most_specific'
@@ -133,6 +139,8 @@ def gen_budget(rng, profile='migrate', year=2025):
                 m['rules'].insert(rng.randint(0, len(m['rules'])),
                                   {'name': w.title() + ' Direct', 'match': 'startswith("%s")' % w, 'category': 'Direct', 'subcategory': 'Prefixless',
                                    'merchant': '', 'tags': ['direct'], 'priority': None, 'lets': [], 'fields': []})
+            if rng.random() < 0.4:
+                m['transforms'].append(['field.ref', 'extract("r(\\\\d+)")'])
             names = set()
             for k, r in enumerate(m['rules']):
                 while r['name'] in names:
